@@ -306,11 +306,18 @@ func c15ExactFirst(c *Check, a *Anchors) {
 			}
 			return set
 		}
-		// start after the alias scan
+		// start at the first top-level statement that tests the number of alias hits (the scan itself may live in a helper)
 		var tail []ast.Stmt
 		for i, st := range gt.Body.List {
-			if aliasLoop != nil && st.Pos() <= aliasLoop.Pos() && aliasLoop.End() <= st.End() {
-				tail = gt.Body.List[i+1:]
+			tests := false
+			ast.Inspect(st, func(m ast.Node) bool {
+				if e, ok := m.(ast.Expr); ok && lenOf(e) {
+					tests = true
+				}
+				return true
+			})
+			if tests && tail == nil {
+				tail = gt.Body.List[i:]
 			}
 		}
 		if tail != nil {
